@@ -401,6 +401,7 @@ def run_native(exe, seq, wd, tag):
             f.write('%s %d\n' % (t, v))
     env = dict(os.environ)
     env['ASAN_OPTIONS'] = 'detect_leaks=1:abort_on_error=0:exitcode=99'
+    env['LSAN_OPTIONS'] = 'exitcode=97'
     env['UBSAN_OPTIONS'] = 'print_stacktrace=0:halt_on_error=1:exitcode=98'
     p = subprocess.run([exe, inp], stdout=subprocess.PIPE, stderr=subprocess.STDOUT, timeout=60, env=env)
     return p.returncode, p.stdout.decode('utf-8', 'replace')
@@ -460,7 +461,7 @@ def execute(q, prop_id, workroot, replay_dir):
             write_replay_file(path, q, 'violation', '%s: %s' % (pid, desc), seq)
             if exe and q.replay:
                 rc, out = run_native(exe, seq, wd, h)
-                if rc in (1, 98, 99) or rc < 0 or 'ASSERT-FAIL' in out or 'AddressSanitizer' in out or 'runtime error' in out:
+                if rc in (1, 97, 98, 99) or rc < 0 or 'ASSERT-FAIL' in out or 'AddressSanitizer' in out or 'LeakSanitizer' in out or 'runtime error' in out:
                     r.violations.append((path, summary, out[-400:]))
                 else:
                     r.unconfirmed.append((path, summary, 'native rc=%d: %s' % (rc, out[-300:])))
